@@ -6,11 +6,13 @@ import (
 	"fmt"
 
 	"github.com/mit-pdos/go-journal/vrt"
+	"github.com/mit-pdos/go-nfsd/nfs"
 	"github.com/mit-pdos/go-nfsd/nfstypes"
 	"github.com/zeldovich/go-rpcgen/xdr"
 	"verif/fsx"
 	"verif/par"
 	"verif/report"
+	"verif/vdisk"
 )
 
 // ---- C11: no request can crash or wedge the server ----
@@ -63,7 +65,7 @@ func c11Handles(w *World) [][]byte {
 }
 
 var c11Names = []string{"", ".", "..", "a", "d", "new", nameOfLen(111, 'l'), nameOfLen(112, 'l'), nameOfLen(113, 'l'), nameOfLen(255, 'l'), nameOfLen(256, 'l'), nameOfLen(4096, 'l')}
-var c11NamesShort = []string{"", ".", "..", "a", "d", "new", nameOfLen(112, 'l'), nameOfLen(300, 'l')}
+var c11NamesShort = []string{"", ".", "..", "a", "d", "x", "new", nameOfLen(112, 'l'), nameOfLen(300, 'l')}
 var c11BaseOffsets = []uint64{0, 1, 4095, 4096, 1 << 32, maxFile - 1, maxFile, 1 << 63, 1<<64 - 4096, 1<<64 - 10, 1<<64 - 1}
 var c11Offsets = c11BaseOffsets
 
@@ -210,44 +212,62 @@ func c11Job(raw json.RawMessage) (interface{}, error) {
 	out := &c11Res{Replies: map[string]int64{}}
 	size, setup := c11Setup(a.State)
 	img := cachedMkfs(size)
+	// the named state is built once and snapshotted; every request then meets exactly that state on a fresh
+	// server instance (requests of one batch must not destroy each other's preconditions)
+	var stImg *vdisk.Image
+	var stVars *fsx.Vars
+	var hs [][]byte
+	bres := vrt.Run(vrt.Config{}, func() {
+		w := NewWorld(img)
+		w.Disk.Record = false
+		w.Model.AllowImplFail = true
+		for _, o := range setup {
+			w.Do(o)
+		}
+		hs = c11Handles(w)
+		if fi := fsx.Exec(w.Srv, fsx.Op{K: "FSINFO"}, fsx.RootFH(), nil); fi.OK() {
+			m := fi.Info["maxfilesize"]
+			c11Offsets = append(append([]uint64{}, c11BaseOffsets...), m-4096, m-1, m)
+		}
+		w.Flush()
+		vrt.Quiesce()
+		w.Srv.ShutdownNfs()
+		stImg, stVars = w.Disk.Snapshot().Flatten(), w.Vars
+	})
+	if v := VerdictViolation(&bres, "C11", "building state "+a.State); v != nil {
+		out.Viols = append(out.Viols, v)
+		return out, nil
+	}
+	_ = stVars
+	calls := c11Calls(a.Proc, hs[a.HIdx], hs)
 	start := 0
-	total := -1
-	for start != total {
+	for start < len(calls) {
 		cur := -1
 		var curDesc string
 		res := vrt.Run(vrt.Config{Horizon: 100_000_000}, func() {
-			w := NewWorld(img)
-			w.Model.AllowImplFail = true
-			for _, o := range setup {
-				w.Do(o)
-			}
-			hs := c11Handles(w)
-			// the announced maximum file size belongs to the offset domain (it may differ from what the block map can address)
-			if fi := fsx.Exec(w.Srv, fsx.Op{K: "FSINFO"}, fsx.RootFH(), nil); fi.OK() {
-				m := fi.Info["maxfilesize"]
-				c11Offsets = append(append([]uint64{}, c11BaseOffsets...), m-4096, m-1, m)
-			}
-			calls := c11Calls(a.Proc, hs[a.HIdx], hs)
-			total = len(calls)
-			for i := start; i < len(calls); i++ {
+			for i := start; i < len(calls) && i < start+256; i++ {
 				c := calls[i]
 				cur = i
 				curDesc = fmt.Sprintf("%s handle=%x handle2=%x", c.Op, c.H, c.H2)
-				vrt.SetHorizon(vrt.Steps() + 1_000_000) // per request: more scheduling points than that is a loop that never ends
+				d := vdisk.New(stImg)
+				d.Record = false
+				w := &World{Disk: d, Vars: fsx.NewVars(), Model: nil}
+				w.Srv = nfs.MakeNfs(d)
+				vrt.SetHorizon(vrt.Steps() + 400_000) // per request: more scheduling points than that is a loop that never ends
 				r := fsx.Exec(w.Srv, c.Op, c.H, c.H2)
 				vrt.SetHorizon(vrt.Steps() + 20_000_000)
 				out.Calls++
 				out.Replies[fmt.Sprintf("%s=>%d", a.Proc, r.Status)]++
-				if i%64 == 63 || i == len(calls)-1 {
-					if e := c11Sanity(w, i); e != "" {
-						out.Viols = append(out.Viols, &report.Violation{Property: "C11", Sig: "not-serving-afterwards|" + a.Proc, Detail: fmt.Sprintf("state %s, after %s (and the calls before it since the last sanity script): %s", a.State, curDesc, e),
-							Replay: map[string]interface{}{"job": "c11", "arg": a}})
-						start = total
-						return
-					}
+				if e := c11Sanity(w, i); e != "" {
+					out.Viols = append(out.Viols, &report.Violation{Property: "C11", Sig: "not-serving-afterwards|" + a.Proc, Detail: fmt.Sprintf("state %s, after %s: %s", a.State, curDesc, e),
+						Replay: map[string]interface{}{"job": "c11", "arg": a}})
+					start = len(calls)
+					return
 				}
+				vrt.Quiesce()
+				w.Srv.ShutdownNfs()
 			}
-			start = total
+			start = cur + 1
 		})
 		if v := VerdictViolation(&res, "C11", a.Proc); v != nil {
 			v.Detail = fmt.Sprintf("state %s, request %s\n%s", a.State, curDesc, v.Detail)
@@ -255,14 +275,11 @@ func c11Job(raw json.RawMessage) (interface{}, error) {
 			if len(out.Viols) < 10 {
 				out.Viols = append(out.Viols, v)
 			}
-			start = cur + 1 // continue with the next call on a fresh instance
+			start = cur + 1 // continue with the next call
 			if cur < 0 || len(out.Viols) >= 4 {
 				break // (several requests of this batch already crash or wedge the server: the rest adds nothing)
 			}
 			continue
-		}
-		if total < 0 {
-			break
 		}
 	}
 	return out, nil
@@ -413,7 +430,7 @@ func C11(r *report.Report, tier string) {
 	if tier == "thorough" {
 		states = append(states, "maxsparse")
 	}
-	r.Rule = "structural: per procedure the full product of boundary domains - 16 handles (empty, 3/8/15 bytes, root, file, directory, symlink, dead, inode 0 / 2^64-1 / beyond the table / free / wrong generation, 17 and 64 bytes), 12 names (empty, ., .., existing, new, 111/112/113/255/256/4096 bytes), 11 offsets/sizes up to 2^64-1, counts {0,1,4096,wtmax-1,wtmax,wtmax+1,2^32-1} with data lengths that agree and disagree, cookies, dircount/maxcount, stability and create modes incl. illegal ones; RENAME/LINK over all pairs of handles; in the states populated / tiny full disk (/ maximal sparse file); bytes: for one valid request per procedure (22 NFS + 6 MOUNT) every truncation, an extension, and every substitution of each 32-bit word by {0,1,2,3,63,64,65,0x7fffffff,0xffffffff}, decoded and executed through the registered rpcgen handlers; every call under the controlled scheduler: a reply (or a decode rejection) must arrive - no panic, no deadlock, no runaway; after every 64 calls a sanity script (create, write, read back, lookup, remove, list) must succeed. distinct_nontrivial = distinct (procedure, status) pairs"
+	r.Rule = "structural: per procedure the full product of boundary domains - 16 handles (empty, 3/8/15 bytes, root, file, directory, symlink, dead, inode 0 / 2^64-1 / beyond the table / free / wrong generation, 17 and 64 bytes), 12 names (empty, ., .., existing, new, 111/112/113/255/256/4096 bytes), 11 offsets/sizes up to 2^64-1, counts {0,1,4096,wtmax-1,wtmax,wtmax+1,2^32-1} with data lengths that agree and disagree, cookies, dircount/maxcount, stability and create modes incl. illegal ones; RENAME/LINK over all pairs of handles; in the states populated / tiny full disk (/ maximal sparse file); bytes: for one valid request per procedure (22 NFS + 6 MOUNT) every truncation, an extension, and every substitution of each 32-bit word by {0,1,2,3,63,64,65,0x7fffffff,0xffffffff}, decoded and executed through the registered rpcgen handlers; every structural call meets the named state on a fresh server instance (snapshot) under the controlled scheduler: a reply (or a decode rejection) must arrive - no panic, no deadlock, no runaway (400000 scheduling points per request) - and the sanity script (create, write, read back, lookup, remove, list) must succeed on the same instance afterwards. distinct_nontrivial = distinct (procedure, status) pairs"
 	var jobs []interface{}
 	var descs []c11Arg
 	for _, st := range states {
